@@ -375,10 +375,12 @@ static void emit_vt(struct context_data *ctx, const struct snap *s0, const struc
 	}
 	for (i = 0; i < g_nspans; i++)
 		total += g_spans[i].count;
-	/* The span loop only leaves a tick unfilled when the sample ended (one-shot, or a stopped
-	 * sample swap, which is excluded above): then do_anticlick ramps out over the rest and the
-	 * next volume ramps from 0.  A tick filled exactly has neither. */
-	ended = total < s->ticksize;
+	/* A tick left unfilled: either the sample ended (one-shot; then do_anticlick ramps out over the
+	 * rest and the next volume ramps from 0: old_vl = old_vr = 0 afterwards), or the `usmp` guard
+	 * of the span loop gave up (loops shorter than one step: every other iteration mixes nothing).
+	 * The two are told apart by the volume memory the tick left behind.  A tick filled exactly
+	 * has neither. */
+	ended = total < s->ticksize && b->old_vl == 0 && b->old_vr == 0;
 	if (ended) {
 		acafter = s->ticksize - total;
 		stop = 1;
